@@ -1,13 +1,15 @@
 """C19 - version comparison is a consistent order; constraint logic is sound."""
 from symx.api import *
+import copy
 
 PROPERTY = 'C19'
 LEVEL = 'other'
-FILES = ['mesonbuild/utils/universal.py']
+FILES = ['mesonbuild/utils/universal.py', 'mesonbuild/interpreterbase/interpreterbase.py', 'mesonbuild/interpreter/primitives/string.py']
 ENCODED = ['mesonbuild.utils.universal.Version.__init__', 'Version.__lt__/__le__/__gt__/__ge__/__eq__/__ne__/__hash__/__cmp',
            '_version_extract_cmpop', 'version_compare', 'version_compare_many', 'Range.__post_init__/__contains__/_intersect_min/'
            '_intersect_max/intersect/always', 'version_check_to_range', 'version_compare_condition_with_min',
-           '_VERSION_TOK_RE (interpreted from CPython\'s own parse tree)']
+           '_VERSION_TOK_RE (interpreted from CPython\'s own parse tree)',
+           'InterpreterBase.evaluate_if / evaluate_notstatement / evaluate_andstatement / evaluate_orstatement (meson_version narrowing)', 'MesonVersionStringHolder.version_compare_method']
 EXPLANATION = ('Symbolic execution (own engine symx: proxy values through the real CPython functions, fork-by-re-execution, z3 decides every '
                'branch and every assertion) of mesonlib.Version / version_compare / Range on symbolic version strings (concrete length, symbolic '
                'characters over printable ASCII) and symbolic Range end points; compared on every path with an independent reference comparator '
@@ -253,6 +255,72 @@ def ob_condmin(lv, lm, lx):
     return h
 
 
+def ob_if_narrowing():
+    """the meson_version narrowing of if-blocks (InterpreterBase.evaluate_if + MesonVersionString.version_compare + Range.intersect): a real Interpreter runs
+    an if / elif / else chain whose conditions are version tests (symbolic operator and version), Booleans, and and/or/not combinations of them; a probe inside
+    every block records the range feature checks would use there. In a block that runs, that range contains the running version (a feature check that is
+    silenced there is silenced for a version that can reach the block), it is the project's range wherever the clause tests no version, and it is the project's
+    range again after the statement"""
+    import harness.c01 as C1
+    from mesonbuild import mesonlib, coredata
+
+    def h():
+        if C1.ENV is None: C1.setup()
+        running = U.Version(coredata.version)
+        B0 = sym_bool('B0'); B1 = sym_bool('B1')
+        VOPS = ['>=', '<', '==']
+        def vc(tag):
+            op = VOPS[choose(len(VOPS), 'op' + tag)]
+            v = sym_str(1, 'a' + tag, alphabet='012') + '.' + ['0', '12.99'][choose(2, 'c' + tag)]
+            return ('meth', ('meth', ('var', 'meson'), 'version', [], {}), 'version_compare', [('var', 'V' + tag)], {}), op + v
+        presets = {'B0': B0, 'B1': B1}
+        clauses = []
+        for ci, bname in ((0, 'B0'), (1, 'B1')):
+            shape = choose(8 if ci == 0 else 3, 'shape%d' % ci)
+            e1, s1 = vc('%da' % ci); presets['V%da' % ci] = s1
+            b = ('var', bname)
+            has_v = shape != 2
+            if shape == 0: cond = e1
+            elif shape == 1: cond = ('not', e1)
+            elif shape == 2: cond = b
+            elif shape == 3: cond = ('bin', 'and', e1, b)
+            elif shape == 4: cond = ('bin', 'and', b, e1)
+            elif shape == 5: cond = ('bin', 'or', e1, b)
+            elif shape == 6: cond = ('bin', 'or', b, e1)
+            else:
+                e2, s2 = vc('%db' % ci); presets['V%db' % ci] = s2
+                cond = ('bin', 'and', e1, e2)
+            clauses.append((cond, has_v))
+        prog = [('expr', ('call', 'probe', [('num', 0)], {})),
+                ('if', [(clauses[0][0], [('expr', ('call', 'probe', [('num', 1)], {}))]), (clauses[1][0], [('expr', ('call', 'probe', [('num', 2)], {}))])],
+                 [('expr', ('call', 'probe', [('num', 3)], {}))]),
+                ('expr', ('call', 'probe', [('num', 4)], {}))]
+        text = C1.render_block(prog)
+        pmin = '>=0.5' + sym_str(1, 'pm', alphabet='05')
+        ast = C1.mp.Parser("project('p', meson_version : '%s')\n" % '@PM@' + text, 'meson.build').parse()
+        # the project's requirement is symbolic too: put it where the literal was parsed
+        for n_ in ast.lines[0].args.kwargs.values(): n_.value = pmin
+        it = C1.Interpreter(C1.B.Build(C1.ENV), ast=ast, backend=None, user_defined_options=C1.OPTS)
+        for k, v in presets.items(): it.variables[k] = it._holderify(C1.clone(v))
+        seen = []
+        def probe(node, args, kwargs):
+            r = mesonlib.project_meson_versions[it.subproject]
+            seen.append((args[0], copy.deepcopy(r)))
+        it.funcs['probe'] = probe
+        it.run()
+        check(len(seen) == 3 and seen[0][0] == 0 and seen[2][0] == 4, 'exactly one block of the chain runs')
+        if len(seen) != 3: return
+        proj = seen[0][1]
+        blk, r = seen[1]
+        check(running in proj, 'the project range contains the running version')
+        check(running in r, 'the range in force inside a block that runs contains the running version')
+        if blk == 3 or not clauses[blk - 1][1]:
+            check(r == proj, 'a clause that tests no version leaves the project range in force')
+        check(seen[2][1] == proj, 'after the if statement the project range is in force again')
+        cover('block%d' % blk)
+    return h
+
+
 def obligations(tier):
     out = []
     L = 3 if tier == 'quick' else 4
@@ -276,5 +344,8 @@ def obligations(tier):
         out.append(Obligation('check-to-range[%d]' % n, ob_checks(n, lv, 2), dict(checks=n, version_len=lv, x_len=2, alphabet='0-9ab.'), labels=('done',), max_paths=5000000))
     for n in (1,) if tier == 'quick' else (1, 2):
         out.append(Obligation('check-to-range-start[%d]' % n, ob_checks_start(n, 1, 1 if tier == 'quick' else 2, '019a.' if tier == 'quick' else '0123456789ab.'), dict(start='built from 2 checks', checks=n, version_len=1, x_len=1 if tier == 'quick' else 2, alphabet='019a.' if tier == 'quick' else '0-9ab.'), labels=('done',), max_paths=5000000))
+    out.append(Obligation('if-narrowing', ob_if_narrowing(), dict(chain='if / elif / else, probe in every block', clause='if: vc | not vc | B | vc and B | B and vc | vc or B | B or vc | vc and vc; elif: vc | not vc | B',
+                          version_test="symbolic operator (>= < ==) and version [0-2].(0|12.99); running version 1.12.99 (coredata.version)", project_requirement='>=0.5[05]'),
+                          labels=('block1', 'block2', 'block3'), max_paths=3000000))
     out.append(Obligation('condition-with-min', ob_condmin(2, 2, 2), dict(lens=2, alphabet='0-9ab.'), labels=('true', 'false')))
     return out
